@@ -299,7 +299,7 @@ func (w *World) sortOf(t types.Type) string {
 			w.dtSeen[name] = true
 			var fs []string
 			for i := 0; i < u.NumFields(); i++ {
-				fs = append(fs, fmt.Sprintf("(%s %s)", q(name+"."+u.Field(i).Name()), w.sortOf(u.Field(i).Type())))
+				fs = append(fs, fmt.Sprintf("(%s %s)", q(name+"."+fldName(u, i)), w.sortOf(u.Field(i).Type())))
 			}
 			w.dtDecls = append(w.dtDecls, fmt.Sprintf("(declare-datatypes ((%s 0)) (((%s %s))))", q(name), q("mk."+name), strings.Join(fs, " ")))
 		}
@@ -308,6 +308,15 @@ func (w *World) sortOf(t types.Type) string {
 		panic("sortOf tuple")
 	}
 	panic("sortOf: unsupported type " + t.String())
+}
+
+// fldName is the name of field i used in SMT identifiers: blank fields ("_", of which a struct may have several)
+// are numbered so that accessor and heap names stay distinct.
+func fldName(st *types.Struct, i int) string {
+	if n := st.Field(i).Name(); n != "_" {
+		return n
+	}
+	return fmt.Sprintf("_%d", i)
 }
 
 func structOf(t types.Type) *types.Struct {
@@ -364,7 +373,7 @@ func (w *World) zero(t types.Type) string {
 func (w *World) structSel(t types.Type, i int, v string) string {
 	st := t.Underlying().(*types.Struct)
 	w.sortOf(t)
-	return fmt.Sprintf("(%s %s)", q("S."+w.tyid(t)+"."+st.Field(i).Name()), v)
+	return fmt.Sprintf("(%s %s)", q("S."+w.tyid(t)+"."+fldName(st, i)), v)
 }
 
 // structUpd gives a struct value equal to v except field i = nv.
@@ -386,7 +395,7 @@ func (w *World) structUpd(t types.Type, i int, v, nv string) string {
 
 func (w *World) heapField(structT types.Type, i int) string {
 	st := structT.Underlying().(*types.Struct)
-	name := "F." + w.tyid(structT) + "." + st.Field(i).Name()
+	name := "F." + w.tyid(structT) + "." + fldName(st, i)
 	if _, ok := w.heapSorts[name]; !ok {
 		w.heapSorts[name] = "(Array Ref " + w.sortOf(st.Field(i).Type()) + ")"
 		w.heapMeta[name] = st.Field(i).Type()
